@@ -27,6 +27,7 @@ TIMES = [F(0), F(1, 3), F(1, 2), F(1), F(3, 2), F(2), F(5, 2), F(3), F(4), F(5),
 
 DEFAULT_PROFILE = dict(
   ruby=True,            # ruby containers
+  ruby_full=False,      # ruby bases are also plain and non-blank (every ruby part always has text)
   ruby_timed=False,     # timing / region / display on ruby annotation parts (ttconv finding I-3)
   animation=True,
   br_styles=False,      # styles on br
@@ -74,7 +75,7 @@ def numbers(prof, lo=0, hi=100):
   base = st.sampled_from([0, 1, 2, 10, 50, 100, 0.5, 12.5, 33, 80, 5, 25, 150])
   if not prof["exotic_numbers"]:
     return base
-  return st.one_of(base, base, st.integers(lo, hi), st.floats(lo, hi, allow_nan=False, allow_infinity=False, width=32).map(float),
+  return st.one_of(base, base, st.integers(lo, hi), st.floats(max(lo, 0.0078125), hi, allow_nan=False, allow_infinity=False, width=32).map(float),
                    st.fractions(lo, hi, max_denominator=12))
 
 
@@ -321,7 +322,7 @@ def _node(draw, ctx, kind, depth, regions, in_ruby_annot=False, plain_self=False
       kids(["span", "text", "text", "text", "br"], 0, fan)
   elif kind == "ruby":
     pat = draw(st.sampled_from([["rb", "rt"], ["rb", "rp", "rt", "rp"], ["rbc", "rtc"], ["rbc", "rtc", "rtc"]]))
-    n["kids"] = [_node(draw, ctx, k, depth + 1, regions, k != "rb" and k != "rbc", True, assoc) for k in pat]
+    n["kids"] = [_node(draw, ctx, k, depth + 1, regions, prof["ruby_full"] or (k != "rb" and k != "rbc"), True, assoc) for k in pat]
   elif kind in ("rb", "rt", "rp"):
     kids(["span"], 1, 2)
   elif kind == "rbc":
